@@ -13,8 +13,11 @@ if os.path.exists(p):
             cur = m.group(1)
             continue
         m = re.match(r"(C\d\d) rc=(\d+) \[(C\d\d) (\w+)\] (.*)", line)
-        if m and cur and cur not in ev:
-            ev[cur] = (m.group(2), m.group(5).strip())
+        if m and cur:
+            # several checks may be run for one change: reported if any of them reports it
+            old = ev.get(cur)
+            if old is None or (old[0] != "1" and m.group(2) == "1"):
+                ev[cur] = (m.group(2), m.group(1) + ": " + m.group(5).strip())
 rows = []
 for d in sorted(glob.glob(os.path.join(ROOT, "seeded", "C*"))):
     name = os.path.basename(d)
